@@ -148,6 +148,30 @@ def run(ctx, R):
     cp = F.find_impl("Machine", None, "copy_to_lifted_heap")
     names = [r for _, r, _ in hir_calls(F.hir(cp)["body"])]
     R.ob("C25:copy_to_lh:stores-a-copy", any(re.search(r"MachineState>?::copy_findall_solution$", c) for c in names), "'$copy_to_lh' must go through copy_findall_solution; calls %s" % [short(c) for c in names], F.where(cp))
+    # the copy is made at the top of the heap and moved into the solution store: every cell of it that holds a heap
+    # address is rebased by the same amount — the ordinary cells in one loop, the tail cells of copied strings in another
+    import json as _json
+    cpb = F.hir(cp)["body"]
+    lets = {x["pat"]["name"]: x["init"] for x in walk(cpb) if x["k"] == "Let" and x["pat"]["k"] == "PBind" and "init" in x}
+
+    def canon(n, depth=0):
+        if isinstance(n, list):
+            return [canon(x, depth) for x in n]
+        if not isinstance(n, dict):
+            return n
+        if n.get("k") == "Path" and depth < 4 and (res_name(n) in lets) and res_name(n) not in ("lh_offset",):
+            return canon(lets[res_name(n)], depth + 1)
+        if n.get("k") in ("Paren", "DropTemps") and ("e" in n):
+            return canon(n["e"], depth)
+        return {k: canon(v, depth) for k, v in n.items() if k not in ("ln", "mac", "span", "adj_ty")}
+    rebases = [x for x in walk(cpb) if x["k"] == "AssignOp" and str(x.get("op", "")).startswith("Sub") and x["lhs"].get("k") == "Index"
+               and any(y.get("k") == "Field" and y.get("name") == "lifted_heap" for y in walk(x["lhs"]["base"]))]
+    forms = {_json.dumps(canon(x["rhs"]), sort_keys=True) for x in rebases}
+    if len(rebases) < 2:
+        raise AnchorLost("copy_to_lifted_heap: the two rebasing subtractions (%d)" % len(rebases))
+    R.ob("C25:copy_to_lh:every-copied-address-rebased-by-the-same-offset", len(forms) == 1,
+         "copy_to_lifted_heap subtracts %d different offsets from the cells of one copied solution (lines %s): the tail cell of a copied string then points into another solution "
+         "when the store is not empty (an all-solutions call nested in another one, second outer iteration, solutions containing strings)" % (len(forms), [x["ln"] for x in rebases]), F.where(cp))
     cf = F.find_impl("MachineState", None, "copy_findall_solution")
     ch = F.hir(cf)
     calls = [(r, n) for _, r, n in hir_calls(ch["body"])]
